@@ -11,7 +11,7 @@ Import ListNotations.
 Local Open Scope string_scope.
 Local Open Scope Z_scope.
 
-Definition special_sorts : lenv := [("EA", SBv 32); ("i", SBv 32); ("j", SBv 32); ("k", SBv 32)]%N.
+Definition special_sorts : lenv := [("EA", SBv 32); ("i", SBv 32); ("j", SBv 32); ("k", SBv 32); ("ret_val", SBv 64)]%N.
 Definition well_sorted (c : config) (p : cstmts) : option bool :=
   match tlower c p with
   | OK (e, _) => Some (match wf_effect (rw_of (regs_ss xi p)) special_sorts e with Some _ => true | None => false end)
@@ -28,7 +28,8 @@ Definition w_D14 : cstmts :=
  (SCons (SExpr (EAssign AAssign (EOp (OReg "R" "d")) (EOp (OIdent "x")))) SNil)).
 Theorem C10_refuted_bool_written : well_sorted (cfg_insn 0) w_D2 = Some false.
 Proof. vm_compute. reflexivity. Qed.
-Theorem C10_refuted_local_changes_width : well_sorted (cfg_insn 0) w_D14 = Some false.
+(* FIXED in /repo (fix: compound assignment converts the result to the type of its target) *)
+Example C10_fixed_local_keeps_width : well_sorted (cfg_insn 0) w_D14 = Some true.
 Proof. vm_compute. reflexivity. Qed.
 Theorem C10_refuted : ~ C10_statement.
 Proof. intro H. apply (H w_D2). exact C10_refuted_bool_written. Qed.
